@@ -315,6 +315,21 @@ def ev(n, env, funcs=None):
                 return set(args[0])
         if isinstance(f, ast.Name) and fname == 'dict' and not args and not n.keywords:
             return {}
+        if isinstance(f, ast.Name) and fname == 'dict' and len(args) <= 1:
+            d_ = {}
+            if args:
+                src_ = args[0]
+                if isinstance(src_, dict):
+                    d_.update(src_)
+                elif isinstance(src_, (list, tuple)) and all(isinstance(p_, (list, tuple)) and len(p_) == 2 for p_ in src_):
+                    for k_, v_ in src_:
+                        d_[k_] = v_
+                else:
+                    raise Unsupported('dict(%s)' % ast.unparse(n.args[0]))
+            for k in n.keywords:
+                if k.arg:
+                    d_[k.arg] = ev(k.value, env, funcs)
+            return d_
         if isinstance(f, ast.Name) and fname in ('list', 'tuple', 'set', 'len', 'sorted') and len(args) == 1 and type(args[0]).__name__ in ('dict_keys', 'dict_values', 'dict_items'):
             args = [list(args[0])]
         if isinstance(f, ast.Name) and fname == 'list' and len(args) == 1 and isinstance(args[0], dict):
@@ -477,6 +492,14 @@ def ev(n, env, funcs=None):
             return a or b
         if t is ast.Pow:
             return a ** b
+        if t is ast.RShift:
+            return a >> b
+        if t is ast.LShift:
+            return a << b
+        if t in (ast.BitAnd, ast.BitOr, ast.BitXor) and isinstance(a, int) and isinstance(b, int):
+            return a & b if t is ast.BitAnd else (a | b if t is ast.BitOr else a ^ b)
+        if t is ast.MatMult:
+            return a @ b
     if isinstance(n, (ast.ListComp, ast.GeneratorExp)):
         out = []
 
@@ -743,7 +766,7 @@ def _closure(fdef, env, funcs):
     return call
 
 
-_AUG = {ast.Add: lambda a, b: a + b, ast.Sub: lambda a, b: a - b, ast.Mult: lambda a, b: a * b, ast.Div: lambda a, b: a / b,
+_AUG = {ast.RShift: lambda a, b: a >> b, ast.LShift: lambda a, b: a << b, ast.Add: lambda a, b: a + b, ast.Sub: lambda a, b: a - b, ast.Mult: lambda a, b: a * b, ast.Div: lambda a, b: a / b,
         ast.Pow: lambda a, b: a ** b, ast.FloorDiv: lambda a, b: a // b, ast.Mod: lambda a, b: a % b}
 
 
